@@ -6,8 +6,9 @@ sag-and-slope assemblies compute_z_zprime_Qbfs / _Qcon and the per-m slope terms
 import ast
 from pyexpr2lean import (Gen, Tr, Untranslatable, load, get_def, find_assign, find_assigns, find_returns,
                          find_calls, body_to_lean)
+from pysym import normalised_def, SymEx, canonical_locals, local_assigned_with, canon_cond, merge_paths, U as unp
 from gen_c10 import (norm, nenv, sub_assigns, for_loops, range_args, index_of, reads_of, tuple_unpack_calls,
-                     returns_in_order, I, N, HDR, snorm, stmt_is, GenT, tri, alpha_norm, is_rebind, MATERIALISERS, iter_params_fact)
+                     returns_in_order, I, N, HDR, snorm, stmt_is, GenT, tri, alpha_norm, is_rebind, MATERIALISERS, iter_params_fact, q2d_sides)
 
 JAC = 'prysm/polynomials/jacobi.py'
 QP = 'prysm/polynomials/qpoly.py'
@@ -74,6 +75,7 @@ def pairs(lst):
 
 
 def generate(repo):
+    get_def = normalised_def          # helpers inlined, view aliases of table rows propagated (tools/pysym.py)
     g = GenT('C09', imports=['PrysmVerif.PyPrelude', 'PrysmVerif.Model.C09'], header=HDR)
     jac, _ = load(repo, JAC)
     qp, _ = load(repo, QP)
@@ -342,28 +344,40 @@ def generate(repo):
                       'def lagRecStructure : Bool := true']))
 
     def jacobi_der_item():
+        # path-wise symbolic execution: local names (coef, Pn, ...) and extracted helpers do not matter
         fn = get_def(jac, 'jacobi_der')
-        z = [s for s in fn.body if isinstance(s, ast.If) and norm(ast.unparse(s.test)) == norm('n == 0')
-             and norm(ast.unparse(s.body[0].value)) == norm('np.zeros_like(x)')]
-        one = [s for s in fn.body if isinstance(s, ast.If) and norm(ast.unparse(s.test)) == norm('n == 1')]
-        if len(z) != 1 or len(one) != 1:
-            raise Untranslatable('jacobi_der: n == 0 / n == 1 branches not found')
-        one_val = Tr(nenv({'np.ones_like(x)': '(ofInt 1)', 'n': '(ofInt 1)', 'alpha': 'alpha', 'beta': 'beta'}), mode='num').expr(one[0].body[0].value)
-        call = find_assign(fn, 'Pn')
-        if not (isinstance(call, ast.Call) and ast.unparse(call.func) == 'jacobi'):
-            raise Untranslatable('Pn is not a jacobi() call')
+        paths = SymEx(jac).run(fn)
+        c0, c1 = canon_cond(ast.parse('n == 0', mode='eval').body, True)[0], canon_cond(ast.parse('n == 1', mode='eval').body, True)[0]
+        if any(p.kind != 'return' or p.events for p in paths):
+            raise Untranslatable('jacobi_der: a path does not end in a plain return')
+        zero = [p for p in paths if p.cond(c0) is True]
+        one = [p for p in paths if p.cond(c0) is False and p.cond(c1) is True]
+        gen = [p for p in paths if p.cond(c0) is False and p.cond(c1) is False]
+        if len(zero) != 1 or len(one) != 1 or len(gen) != 1 or len(paths) != 3:
+            raise Untranslatable('jacobi_der: n == 0 / n == 1 / general paths not found')
+        if norm(unp(zero[0].value)) != norm('np.zeros_like(x)'):
+            raise Untranslatable('jacobi_der: order 0 does not return zeros')
+        one_val = Tr(nenv({'np.ones_like(x)': '(ofInt 1)', 'n': '(ofInt 1)', 'alpha': 'alpha', 'beta': 'beta'}), mode='num').expr(one[0].value)
+        val = gen[0].value
+        if not (isinstance(val, ast.BinOp) and isinstance(val.op, ast.Mult)):
+            raise Untranslatable('jacobi_der: the general order is not a product')
+        is_jac = [isinstance(e, ast.Call) and ast.unparse(e.func) == 'jacobi' for e in (val.left, val.right)]
+        if sum(is_jac) != 1:
+            raise Untranslatable('jacobi_der: the general order is not (coefficient) * jacobi(...)')
+        call, coef_node = (val.left, val.right) if is_jac[0] else (val.right, val.left)
+        if find_calls(coef_node, 'jacobi') or any(isinstance(n, ast.Name) and n.id == 'x' for n in ast.walk(coef_node)):
+            raise Untranslatable('jacobi_der: the coefficient depends on the point')
         order = I(call.args[0], ['n'])
         a1 = N(call.args[1], {'alpha': 'alpha'})
         b1 = N(call.args[2], {'beta': 'beta'})
-        arg_ok = ast.unparse(call.args[3]) == 'x'
-        coef = N(find_assign(fn, 'coef'), {'n': 'n', 'alpha': 'alpha', 'beta': 'beta'})
-        ret_ok = norm(ast.unparse(returns_in_order(fn)[-1])) == norm('coef * Pn')
+        arg_ok = len(call.args) == 4 and not call.keywords and ast.unparse(call.args[3]) == 'x'
+        coef = N(coef_node, {'n': 'n', 'alpha': 'alpha', 'beta': 'beta'})
         return '\n'.join([
             f'def jacDerCoef (n alpha beta : K) : K := {coef}',
             f'def jacDerOrder (n : Int) : Int := {order}',
             f'def jacDerShape (alpha beta : K) : K × K := ({a1}, {b1})',
             f'def jacDerAtOrderOne (alpha beta : K) : K := {one_val}',
-            f'def jacDerIsCoefTimesJacobiAtSamePoint : Bool := {tri(arg_ok and ret_ok)}',
+            f'def jacDerIsCoefTimesJacobiAtSamePoint : Bool := {tri(arg_ok)}',
         ])
     g.item('jacobi_der', f'{JAC}:jacobi_der', lambda: get_def(jac, 'jacobi_der'), jacobi_der_item,
            '\n'.join(['def jacDerCoef (n alpha beta : K) : K := ofFrac 1 2 * (n + alpha + beta + ofInt 1)',
@@ -373,8 +387,44 @@ def generate(repo):
                       'def jacDerIsCoefTimesJacobiAtSamePoint : Bool := true']))
 
     # ---------------------------------------------------------------- zernike_nm_der
+    def zern_roles():
+        def has_call(name):
+            return lambda v, found: any(isinstance(c, ast.Call) and ast.unparse(c.func) == name for c in ast.walk(v))
+
+        def der_call_arg(k):
+            def finder(fn, found):
+                calls = find_calls(fn, 'jacobi_der')
+                return calls[0].args[k].id if len(calls) == 1 and isinstance(calls[0].args[k], ast.Name) else None
+            return finder
+
+        def ret_elt(k):
+            def finder(fn, found):
+                r = returns_in_order(fn)[-1]
+                return r.elts[k].id if isinstance(r, ast.Tuple) and len(r.elts) == 2 and isinstance(r.elts[k], ast.Name) else None
+            return finder
+
+        def is_pow(v, found, minus_one):
+            for q in ast.walk(v):
+                if isinstance(q, ast.BinOp) and isinstance(q.op, ast.Pow) and ast.unparse(q.left) == 'r':
+                    e = ast.unparse(q.right).replace(' ', '')
+                    am = found.get('am', 'am')
+                    if e == (f'{am}-1' if minus_one else am):
+                        return True
+            return False
+        return [
+            ('am', local_assigned_with(lambda v, f: ast.unparse(v) == 'abs(m)')),
+            ('x', der_call_arg(3)), ('n_j', der_call_arg(0)),
+            ('dv', local_assigned_with(has_call('jacobi_der'))),
+            ('v', local_assigned_with(lambda v, f: isinstance(v, ast.Call) and ast.unparse(v.func) == 'jacobi')),
+            ('u', local_assigned_with(lambda v, f: isinstance(v, ast.BinOp) and isinstance(v.op, ast.Pow) and is_pow(v, f, False))),
+            ('du', local_assigned_with(lambda v, f: is_pow(v, f, True))),
+            ('znorm', local_assigned_with(lambda v, f: isinstance(v, ast.Call) and ast.unparse(v.func) == 'zernike_norm')),
+            ('dr', ret_elt(0)), ('dt', ret_elt(1)),
+        ]
+
     def zern():
-        fn = get_def(zer, 'zernike_nm_der')
+        # locals are renamed to the names used below when their roles can be told from what they are assigned
+        fn = canonical_locals(get_def(zer, 'zernike_nm_der'), zern_roles())
         x = N(find_assign(fn, 'x'), {'r': 'r'})
         am_ok = norm(ast.unparse(find_assign(fn, 'am'))) == norm('abs(m)')
         nj = Tr({'n': 'n', 'am': 'am'}, mode='int').expr(find_assign(fn, 'n_j'))
@@ -437,10 +487,29 @@ def generate(repo):
         call_ok = norm(ast.unparse(call)) == norm('clenshaw_qbfs_der(coefs, usq, j=1)')
         rest = fn.body[k0 + 1:]
         # the one-term branch: `if len(coefs) > 1: <two-entry read> else: <one-entry read>`
-        if not (isinstance(rest[0], ast.If) and norm(ast.unparse(rest[0].test)) == norm('len(coefs) > 1')):
-            raise Untranslatable('no `if len(coefs) > 1` split of the read-out')
-        many = body_to_lean(rest[0].body + rest[1:], tr, '  ')
-        one = body_to_lean(rest[0].orelse + rest[1:], tr, '  ')
+        if isinstance(rest[0], ast.If) and norm(ast.unparse(rest[0].test)) == norm('len(coefs) > 1'):
+            many = body_to_lean(rest[0].body + rest[1:], tr, '  ')
+            one = body_to_lean(rest[0].orelse + rest[1:], tr, '  ')
+        else:
+            # any other way of writing the split (conditional expressions, a flag, early return): execute the rest path-wise and
+            # translate what each path returns, with every local expanded
+            paths = SymEx(qp, inline=lambda nm: nm.startswith('_')).block(list(rest), {}, [], [])
+            split = canon_cond(ast.parse('len(coefs) > 1', mode='eval').body, True)[0]
+            alt = canon_cond(ast.parse('len(coefs) == 1', mode='eval').body, True)[0]
+            if len(paths) != 2 or any(q.kind != 'return' or q.events or len(q.conds) != 1 for q in paths):
+                raise Untranslatable('read-out is not a two-way split')
+            if all(q.conds[0][0] == split for q in paths):
+                pm = [q for q in paths if q.conds[0][1]][0]
+            elif all(q.conds[0][0] == alt for q in paths):
+                pm = [q for q in paths if not q.conds[0][1]][0]
+            else:
+                raise Untranslatable(f'read-out splits on {paths[0].conds[0][0]}')
+            po = [q for q in paths if q is not pm][0]
+            def pair(v):
+                if not (isinstance(v, ast.Tuple) and len(v.elts) == 2):
+                    raise Untranslatable('does not return a pair')
+                return f'({tr.expr(v.elts[0])}, {tr.expr(v.elts[1])})'
+            many, one = pair(pm.value), pair(po.value)
         pr = get_def(qp, 'product_rule')
         pr_ok = norm(ast.unparse(returns_in_order(pr)[-1])) == norm('u * dv + v * du') and [a.arg for a in pr.args.args] == ['u', 'v', 'du', 'dv']
         return '\n'.join([
@@ -490,8 +559,11 @@ def generate(repo):
         dt = N(augs['dt'], {'m': 'm', 'um': 'um', 'Sa': 'Sa', 'Sb': 'Sb', 'sint': 's', 'cost': 'c'})
         umm1_ok = norm(ast.unparse(find_assign(fn, 'umm1'))) == norm('u ** (m - 1)')
         usq_ok = norm(ast.unparse(find_assign(fn, 'usq'))) == norm('u * u')
-        calls = [norm(ast.unparse(c)) for c in find_calls(fn, 'clenshaw_q2d_der')]
-        calls_ok = sorted(calls) == sorted([norm('clenshaw_q2d_der(a_coef, m, usq)'), norm('clenshaw_q2d_der(b_coef, m, usq)')])
+        # each side's sum and slope are read from clenshaw_q2d_der(<its own coefficient list>, m, usq): path-wise analysis shared
+        # with C10 (the two sides may be written out in the loop or live in a helper called once per side)
+        sd = q2d_sides(qp, fn, loop)['sides']
+        calls_ok = all(r['ok'] and r['coef_ok'] for r in sd.values()) and sd['Sa']['call'] == sd['Sprimea']['call'] \
+            and sd['Sb']['call'] == sd['Sprimeb']['call']
         m0 = [s for s in fn.body if isinstance(s, ast.If) and 'cm0' in ast.unparse(s.test) and not is_rebind(s, 'cm0')]
         m0_ok = len(m0) == 1 and any(stmt_is(s, 'zm0, zprimem0 = compute_z_zprime_Qbfs(cm0, u, usq)') for s in m0[0].body) \
             and any(stmt_is(s, 'dr += zprimem0') for s in m0[0].body)
